@@ -138,8 +138,10 @@ static void build_alphabet(void)
     } else {
         for (k = 0; k < NKEYS; ++k) for (i = 1; i <= 3; ++i) add_op(T_KEY, k, i * B);
         add_op(T_KEY, NKEYS, 2 * B); add_op(T_KEY, NKEYS, 3 * B);      /* K0's first block followed by zeros, at the longer sizes */
+        add_op(T_KEY, 1, 2 * B + B / 2 + 1);                           /* a legal length between the primary sizes, odd (round 16: the CTR layer may stage the key itself) */
         g_first_tkey = g_nops;
-        for (k = 0; k < NKEYS; ++k) for (i = 1; i <= 2; ++i) add_op(T_TKEY, k, i * B);
+        add_op(T_TKEY, 0, B); add_op(T_TKEY, 0, 2 * B); add_op(T_TKEY, 1, B + B / 2 + 1);
+        add_op(T_TKEY, 1, B); add_op(T_TKEY, 1, 2 * B);
     }
     g_nkeyops = g_nops - g_keyop_first;
     for (i = 0; i < g_nctrs; ++i) add_op(T_CTR, i, 0);
@@ -385,7 +387,7 @@ static void w_apply(int opi, int check)
             r[i] = o->type == T_KEY ? ctr_set_key(g_c, &W.obj[i], k, len, (unsigned)o->b)
                                     : ctr_set_tweaked_key(g_c, &W.obj[i], k, len);
         if (W.phase == PH_LIVE) {
-            memset(W.key, 0, 48); memcpy(W.key, k, len); W.klen = (int)len; W.rounds = o->b;
+            memset(W.key, 0, 48); memcpy(W.key, k, len); W.klen = (int)((len + (unsigned)g_bs - 1) / (unsigned)g_bs * (unsigned)g_bs); W.rounds = o->b;   /* in-between lengths are zero-padded to the next primary size */
             W.keyed = o->type == T_KEY ? 1 : 2;
             if (o->type == T_TKEY || g_c == CK_MANTIS) memset(W.tweak, 0, 16);
             if (W.consumed > 0 || W.unkeyed_enc > 0) { W.defined = 0; ++W.nreconf; }
